@@ -61,14 +61,28 @@ class Sweep:
         self.unrank = {a: {i: v for v, i in self.rank[a].items()} for a in names}
 
     # ---- spellings handed to xyzpy
-    def combos_arg(self, rng):
+    def combos_arg(self, rng, iterators=False):
+        """The grid as handed to xyzpy: a dict, a tuple of pairs or a single pair; with [iterators] the values
+        of an argument may be a one-shot iterable (generator, iter, map) instead of a list -- usable ONCE."""
         if not self.combos:
             return None
+        combos = list(self.combos)
+        if iterators and rng.random() < 0.3:
+            def one_shot(vals):
+                k = rng.randrange(4)
+                if k == 0:
+                    return iter(list(vals))
+                if k == 1:
+                    return (v for v in list(vals))
+                if k == 2:
+                    return map(lambda v: v, list(vals))
+                return tuple(vals)
+            combos = [(a, one_shot(v) if rng.random() < 0.6 else v) for a, v in combos]
         if rng.random() < 0.5:
-            return dict(self.combos)
-        if len(self.combos) == 1 and rng.random() < 0.5:
-            return self.combos[0]            # single ('a', [..]) tuple spelling
-        return tuple(self.combos)
+            return dict(combos)
+        if len(combos) == 1 and rng.random() < 0.5:
+            return combos[0]            # single ('a', [..]) tuple spelling
+        return tuple(combos)
 
     def cases_dicts(self, rng=None):
         out = []
